@@ -55,6 +55,10 @@ pub struct BodyPlan {
     pub rereads: usize,
     pub read_timeout_ms: u64,
     pub extra_headers: Vec<(String, Vec<u8>)>,
+    /// before the exchange under test the same caller thread makes another request to the same origin,
+    /// reads this many body bytes and drops the response in mid-body (state a connection leaves behind
+    /// in the thread or the process must not reach the next one)
+    pub prelude: Option<usize>,
     /// `via_text_reader` only: read through `text_reader_with(this charset)` instead of `text_reader()`
     pub text_charset: Option<&'static encoding_rs::Encoding>,
     /// which `std::io::Read` entry point the size schedule goes through: 0 = `read`, 1 = `read_vectored`
@@ -255,6 +259,8 @@ pub fn gen_plan(g: &mut G, max_payload: usize) -> BodyPlan {
         rereads: g.below(4) as usize,
         read_timeout_ms: 30_000,
         extra_headers: extra,
+        // derived, not drawn
+        prelude: if (len + nsegs) % 7 == 3 { Some((len / 3).min(5000)) } else { None },
         text_charset: None,
         // derived, not drawn: recorded tapes of earlier findings keep their meaning
         read_api: match (len * 7 + nsegs) % 6 {
@@ -305,6 +311,7 @@ pub fn plan_from_payload(g: &mut G, payload: Vec<u8>, mut headers: Vec<(String, 
         rereads: 0,
         read_timeout_ms: 30_000,
         extra_headers: headers,
+        prelude: None,
         text_charset: None,
         read_api: 0,
         damage: String::new(),
@@ -357,7 +364,7 @@ impl BodyPlan {
             _ => "xl",
         };
         format!(
-            "{:?}/{}/chunks={}{}/seg={}/read={}{}/g={}/eintr={}/coal={}/end={:?}/dmg={}/rr={}",
+            "{:?}/{}/chunks={}{}/seg={}/read={}{}/g={}/eintr={}/coal={}/end={:?}/dmg={}/rr={}/pre={}",
             self.framing,
             sz,
             cc,
@@ -374,7 +381,8 @@ impl BodyPlan {
             self.faults.coalesce,
             self.end,
             self.damage.split(':').next().unwrap_or(""),
-            self.rereads.min(1)
+            self.rereads.min(1),
+            self.prelude.is_some()
         )
     }
 
@@ -392,8 +400,9 @@ impl BodyPlan {
             })
             .collect();
         format!(
-            "{} framing={:?} payload={}B chunks={:?} garbage={} head={}B wire={}B segs[{}{}]={} end={:?} read={:?} read_api={} rereads={} eintr_at={:?} coalesce={} damage=[{}] head_text={:?}",
+            "{}{} framing={:?} payload={}B chunks={:?} garbage={} head={}B wire={}B segs[{}{}]={} end={:?} read={:?} read_api={} rereads={} eintr_at={:?} coalesce={} damage=[{}] head_text={:?}",
             self.method,
+            self.prelude.map(|k| format!(" (after another exchange dropped after {} body bytes)", k)).unwrap_or_default(),
             self.framing,
             self.payload.len(),
             self.chunk_style.iter().take(8).collect::<Vec<_>>(),
@@ -575,6 +584,25 @@ pub fn caller_with(plan: &BodyPlan, stop_on_block: bool, tweak: impl FnOnce(atto
         rb = rb.add_root_certificate(ca_cert()).proxy_settings(attohttpc::ProxySettings::builder().build());
     }
     let rb = tweak(rb);
+    if let Some(k) = plan.prelude {
+        let mut pre = attohttpc::RequestBuilder::new(attohttpc::Method::GET, &url).read_timeout(Duration::from_millis(plan.read_timeout_ms));
+        if plan.tls {
+            pre = pre.add_root_certificate(ca_cert()).proxy_settings(attohttpc::ProxySettings::builder().build());
+        }
+        if let Ok(mut r) = pre.send() {
+            let mut got = 0usize;
+            let mut b = [0u8; 700];
+            while got < k {
+                match r.read(&mut b) {
+                    Ok(0) => break,
+                    Ok(n) => got += n,
+                    Err(e) if e.kind() == std::io::ErrorKind::Interrupted => {}
+                    Err(_) => break,
+                }
+            }
+            // dropped here, usually in mid-body
+        }
+    }
     let t_in = attosim::now_ns();
     let resp = rb.send();
     o.send_t = (t_in, attosim::now_ns());
